@@ -387,21 +387,9 @@ def increment(repo, run):
             continue
         v = st.value
         if isinstance(v, ast.Name) and v.id == dstate_name:
-            # FSAL shortcut: enclosing if-test must be equivalent to is_fsal and is_explicit
+            # FSAL shortcut: must execute exactly when is_fsal and is_explicit (any arrangement of the branches)
             iff = st._parent
-            okf = False
-            if isinstance(iff, ast.If) and st in iff.body:
-                tree, leaves = bool_atoms(iff.test)
-                atoms = sorted(leaves)
-                norm_atoms = {"self.is_fsal", "self.is_explicit", "self.is_implicit"}
-                if set(atoms) <= norm_atoms:
-                    okf = True
-                    import itertools
-                    for fs, ex in itertools.product((False, True), repeat=2):
-                        val = {"self.is_fsal": fs, "self.is_explicit": ex, "self.is_implicit": not ex}
-                        from ..sym import eval_bool
-                        if eval_bool(tree, {k: val[k] for k in atoms}) != (fs and ex):
-                            okf = False
+            okf = extract.executes_iff_fsal_explicit(st, step)
             run.judged(rid, "FSAL shortcut guard: %s" % (src(iff.test) if isinstance(iff, ast.If) else "<none>"), ok=okf)
             if not okf:
                 run.report("C02.3", ITY, st, "the last explicit-stage increment is used as the step's increment outside `is_fsal and is_explicit`: "
